@@ -170,6 +170,7 @@ type inliner struct {
 	declFile     map[*types.Func]*ast.File
 	eligible     map[*types.Func]bool
 	callFuns     map[*ast.Ident]bool
+	deferred     int // expansions put off to the next round (their callee was rewritten in this one)
 	addedImports []addedImport
 	seq          int
 	curSig       *types.Signature // signature of the function declaration being rewritten
@@ -307,10 +308,12 @@ func bodyInlinable(body *ast.BlockStmt) (bad bool, nstmts int) {
 		case *ast.FuncLit:
 			nstmts += 5
 			return false
-		case *ast.DeferStmt, *ast.LabeledStmt:
+		case *ast.DeferStmt:
 			bad = true
 		case *ast.BranchStmt:
-			if x.Tok == token.GOTO || x.Label != nil {
+			// labelled break/continue stay inside the body (labels are renamed apart on every
+			// expansion, freshenLabels); goto is not handled
+			if x.Tok == token.GOTO {
 				bad = true
 			}
 		case *ast.CallExpr:
@@ -541,6 +544,58 @@ func (in *inliner) dropUnusedImports() {
 	in.addedImports = nil
 }
 
+// freshenLabels gives every label declared in the (cloned) body a new name, so that the body can be
+// placed several times in one function.
+func (in *inliner) freshenLabels(body *ast.BlockStmt) {
+	names := map[string]string{}
+	ast.Inspect(body, func(n ast.Node) bool {
+		switch x := n.(type) {
+		case *ast.FuncLit:
+			return false
+		case *ast.LabeledStmt:
+			in.seq++
+			names[x.Label.Name] = fmt.Sprintf("__l%d_%s", in.seq, strings.TrimLeft(x.Label.Name, "_"))
+		}
+		return true
+	})
+	if len(names) == 0 {
+		return
+	}
+	ast.Inspect(body, func(n ast.Node) bool {
+		switch x := n.(type) {
+		case *ast.FuncLit:
+			return false
+		case *ast.LabeledStmt:
+			x.Label = ident(names[x.Label.Name])
+		case *ast.BranchStmt:
+			if x.Label != nil {
+				if nn, ok := names[x.Label.Name]; ok {
+					x.Label = ident(nn)
+				}
+			}
+		}
+		return true
+	})
+}
+
+// rewrittenThisRound: the node contains an identifier the type checker has not seen, i.e. syntax
+// produced by an expansion of the current round.
+func (in *inliner) rewrittenThisRound(n ast.Node) bool {
+	info := in.pkg.TypesInfo
+	found := false
+	ast.Inspect(n, func(m ast.Node) bool {
+		if id, ok := m.(*ast.Ident); ok && id.Name != "_" {
+			_, d := info.Defs[id]
+			_, u := info.Uses[id]
+			if !d && !u {
+				found = true
+			}
+		}
+		return !found
+	})
+	return found
+}
+
 // innerOfFunc: objects local to a declared function (anything that is neither
 // package-level nor predeclared).
 func (in *inliner) innerOfFunc() func(types.Object) bool {
@@ -713,6 +768,11 @@ func simplifyAddrSelections(n ast.Node) ast.Node {
 			if id := addrOfIdent(x.X); id != nil {
 				x.X = id
 			}
+		case *ast.IndexExpr:
+			// indexing through a pointer to an array
+			if id := addrOfIdent(x.X); id != nil {
+				x.X = id
+			}
 		case *ast.StarExpr:
 			if id := addrOfIdent(x.X); id != nil {
 				if _, isExpr := c.Parent().(ast.Expr); isExpr || c.Name() == "Lhs" || c.Name() == "Rhs" || c.Name() == "Args" || c.Name() == "Results" {
@@ -733,6 +793,10 @@ func (in *inliner) tryExprInline(ce *ast.CallExpr, file *ast.File) ast.Expr {
 	fd := in.decls[callee]
 	body := singleReturnExpr(fd)
 	if body == nil {
+		return nil
+	}
+	if in.rewrittenThisRound(fd.Body) {
+		in.deferred++
 		return nil
 	}
 	sig := callee.Type().(*types.Signature)
@@ -995,8 +1059,34 @@ func (in *inliner) readOnlyIn(obj types.Object, n ast.Node, noClosure bool) bool
 func (in *inliner) declaresName(n ast.Node, name string) bool {
 	found := false
 	ast.Inspect(n, func(m ast.Node) bool {
-		if id, ok := m.(*ast.Ident); ok && id.Name == name && in.pkg.TypesInfo.Defs[id] != nil {
-			found = true
+		switch x := m.(type) {
+		case *ast.Ident:
+			if x.Name == name && in.pkg.TypesInfo.Defs[x] != nil {
+				found = true
+			}
+		case *ast.AssignStmt:
+			// declarations placed earlier in this round have no type information yet
+			if x.Tok == token.DEFINE {
+				for _, l := range x.Lhs {
+					if id, ok := l.(*ast.Ident); ok && id.Name == name {
+						found = true
+					}
+				}
+			}
+		case *ast.ValueSpec:
+			for _, id := range x.Names {
+				if id.Name == name {
+					found = true
+				}
+			}
+		case *ast.RangeStmt:
+			if x.Tok == token.DEFINE {
+				for _, e := range []ast.Expr{x.Key, x.Value} {
+					if id, ok := e.(*ast.Ident); ok && id.Name == name {
+						found = true
+					}
+				}
+			}
 		}
 		return !found
 	})
@@ -1146,6 +1236,12 @@ func (in *inliner) expandCallMode(ce *ast.CallExpr, file *ast.File, depth int, s
 			}
 			return false
 		}
+	}
+	if in.rewrittenThisRound(tg.body) {
+		// the body holds statements placed earlier in this round, for which there is no type
+		// information yet: none of the checks below could see into them.  The next round does it.
+		in.deferred++
+		return nil, nil, false
 	}
 	if !in.freeNamesOK(tg.body, inner, file) {
 		return nil, nil, false
@@ -1318,6 +1414,7 @@ func (in *inliner) expandCallMode(ce *ast.CallExpr, file *ast.File, depth int, s
 	}
 	// body with returns rewritten
 	body := in.substituteCloneNode(tg.body, sub).(*ast.BlockStmt)
+	in.freshenLabels(body)
 	label := tag + "_L"
 	okBody := true
 	if disp != nil && (tail || sig.Results().Len() != 1) {
